@@ -1,13 +1,17 @@
 """Which units decide which property, and what the evidence says about the claim."""
 PROPS = {
     "C06": {
-        "units": ["codec"],
+        "units": ["codec", "fragcache"],
         "level": "proof",
         "clause": "ID window/rebase codec (IdWindow::encode/count, IdRebase::decode, encode_sentinel/decode_sentinel) is a bijection between a "
                   "file's ID window and the reserved range, order preserving, sentinel-safe, and refuses every id outside the window at capture time. "
                   "Interned ids (StrId): EncodeSession::encode_str keeps the dictionary invariant (every cached id points at its own text, earlier entries untouched, unknown id refused and "
-                  "nothing stored), DecodeSession::decode_str is exactly the index lookup, and an encoded id decodes to an id with the same text (lemma_str_roundtrip) (Verus, unbounded).",
-        "assumptions": ["not covered: non-ID analyzer state, that every ID-bearing field is serialised through these impls (serde derive), thread-local session plumbing, "
+                  "nothing stored), DecodeSession::decode_str is exactly the index lookup, and an encoded id decodes to an id with the same text (lemma_str_roundtrip). "
+                  "ID plumbing of fragment_cache::{watermark, capture, restore} (real bodies, global tables outlined behind a ghost World of the four id counters and installed codec "
+                  "sessions): capture refuses unless exactly one text id lies in the window, serialises under exactly the windows (watermark.X, X_now], stores counts == window sizes, "
+                  "exporters see the same bounds; restore reserves exactly the stored counts, deserialises under rebases {reserved base, same count}, registers the source text under the id "
+                  "local text id 0 decodes to, closes every session on every path; lemma_all_offsets: id start+k maps to base+k for every offset (Verus, unbounded).",
+        "assumptions": ["not covered: what the table exporters/insertions do to the tables (symbol table, scopes, namespaces, ...), that every ID-bearing field is serialised through these impls (serde derive), "
                         "encode_path/decode_path (same shape as the str pair; PathBuf is opaque to Verus), DecodeSession::new (iterator adapters)",
                         "assumed: resource_table::get_str_value / insert_str behave as an interning table (str_value uninterpreted), StrId hashing obeys vstd's key model"],
     },
